@@ -72,9 +72,10 @@ for _v, _f in (("i_bw", _IF_BW), ("i_cw", _IF_CW)):
             bounds="all 8-slot tables under Inv (3 output records); " + _txt, functions=_f, cost=9 * 10 ** 6)
 
 # ---- S-lazy / U-val ---------------------------------------------------------------------------
-for _n in ("bw_find", "bw_overlapping", "bw_no_suffix", "cw_find", "cw_overlapping", "cw_no_suffix"):
-    reg("s_lazy::" + _n, unwind=6, family="S", states=4, transitions=16, mem_gb=24, timeout_s=(1500, 3600), cost=4 * 10 ** 6,
-        bounds="all 4-slot tables under Inv; haystack <= 2 bytes (char-wise: <= 2 arbitrary chars); every next() call up to the final None; "
+for _n in ("bw_find", "bw_overlapping", "bw_overlapping_full", "bw_no_suffix", "cw_find", "cw_overlapping", "cw_overlapping_full", "cw_no_suffix"):
+    reg("s_lazy::" + _n, unwind=6, family="S", states=4, transitions=16, mem_gb=(24 if _n.endswith("_full") else 12), timeout_s=(1500, 3600), cost=4 * 10 ** 6,
+        bounds="all 4-slot tables under Inv (2 output records; the non-_full overlapping variants: 1 record, i.e. no output chains); "
+               "haystack <= 2 bytes (char-wise: <= 2 arbitrary chars); every next() call up to the final None; "
                "source with arbitrary valid size_hint lower bound",
         functions=(_IF_BW if _n.startswith("bw") else _IF_CW) + ["find_iter_from_iter", "find_overlapping_iter_from_iter", "find_overlapping_no_suffix_iter_from_iter"])
 U_VAL_NAMES = ['bw_u8', 'bw_u16', 'bw_u32', 'bw_u64', 'bw_u128', 'bw_i8', 'bw_i16', 'bw_i32', 'bw_i64', 'bw_i128', 'bw_usize', 'bw_isize', 'bw_empty', 'bw_u8_find', 'bw_u8_nosuf', 'bw_u8_lm', 'bw_u8_lf', 'bw_u128_find', 'bw_u128_nosuf', 'bw_u128_lm', 'bw_u128_lf', 'bw_empty_find', 'bw_empty_nosuf', 'bw_empty_lm', 'bw_empty_lf', 'cw_u8', 'cw_u16', 'cw_u32', 'cw_u64', 'cw_u128', 'cw_i8', 'cw_i16', 'cw_i32', 'cw_i64', 'cw_i128', 'cw_usize', 'cw_isize', 'cw_empty', 'cw_u8_find', 'cw_u8_nosuf', 'cw_u8_lm', 'cw_u8_lf', 'cw_u128_find', 'cw_u128_nosuf', 'cw_u128_lm', 'cw_u128_lf', 'cw_empty_find', 'cw_empty_nosuf', 'cw_empty_lm', 'cw_empty_lf']
@@ -105,7 +106,8 @@ def family_of(h):
 
 def job(h, tier):
     if h not in REG:
-        raise SystemExit("ERROR hand-written harness %s is not registered" % h)
+        print("ERROR hand-written harness %s is not registered" % h)
+        raise SystemExit(2)
     r = REG[h]
     t = r.get("timeout_s", (600, 3600))
     return dict(harness=h, unwind=r.get("unwind"), unwindset=r.get("unwindset"),
